@@ -75,7 +75,7 @@ class vlan(packet_base):
         (pcpid, self.eth_type) = struct.unpack("!HH", raw[:vlan.MIN_LEN])
 
         self.pcp = pcpid >> 13
-        self.cfi = pcpid  & 0x1000
+        self.cfi = (pcpid >> 12) & 1
         self.id  = pcpid  & 0x0fff
 
         self.parsed = True
